@@ -1,4 +1,5 @@
 import Ecal.Drivers.EvalCommon
+import Ecal.Model.ParserWF
 /-!
 Driver of C04. Payload: `evPayload` of a marker program (see go/cmd/harness/evalcommon.go, c04.go).
 Result: the canonical outcome of `Ecal.Ev.eval` on the tree of the payload with line and column of an
@@ -19,8 +20,13 @@ def runCase (payload : String) : String :=
   match decodePayload payload with
   | none => "bad-payload"
   | some prog =>
+    -- the `_wf` theorems speak about well-formed trees: every tree this driver evaluates (the program and
+    -- the embedded expressions of its literals, all built by the real parser) is checked
+    let trees := (match prog.ast with | some n => [n] | none => []) ++
+      prog.interp.filterMap fun p => match p.2 with | .ast n => some n | _ => none
+    if !(trees.all Ecal.Parse.WellFormed) then "NOT-WELLFORMED tree from the real parser" else
     let r := runProgram prog
-    let t := outcomeText r
+    let t := outcomeTextFull r
     let t := if t.contains '?' then "UNSUP log shows a value the model does not know" else t
     let nt : Bool := match r with
       | .done _ st => decide (st.log.size ≥ 2)
